@@ -409,6 +409,10 @@ func (p *prepared) exec1() (r result) {
 			} else if lim, ok := v.(verifrt.TooManyGoroutines); ok {
 				verifh.HarnessError("%v", lim)
 				r.tripped = true
+			} else if d, ok := v.(verifrt.Deadlock); ok && d.PollingSelect {
+				// may be the simulator's (two selects facing each other on an unbuffered channel): no verdict
+				verifh.HarnessError("%v", d)
+				r.tripped = true
 			} else {
 				r.panicked, r.pval = true, v
 			}
